@@ -236,6 +236,38 @@ def check_scan(P, ctx):
     ctx.floor(rule, 1)
 
 
+def check_type_new_all_instances(P, ctx):
+    """a run-time type records every instance it was given: the copy loop of Type_New visits the arguments 2..len(args)-1 in steps
+    of one (header evaluated for 2..6 arguments), so no declared class is silently dropped"""
+    from . import loops
+    rule = 'C08.runtime-type-complete'
+    fn = P.fn('Type_New')
+    g = P.cfg(fn)
+    ctx.fn(fn)
+    lenc = ir.canon(('call', ('func', 'len'), (('param', 'args', 1),)))
+    conds = [n for n in g.live() if n['kind'] == 'cond' and loops.counted_loop(g, None, n) is not None and
+             any(x == lenc for x in ir.walk(ir.canon(n['expr'])))]
+    bad = None
+    if len(conds) != 1:
+        bad = 'expected one loop over the instance arguments, found %d' % len(conds)
+    else:
+        lp = loops.counted_loop(g, None, conds[0])
+        N = util.Norm(P, fn, inline=False)
+        try:
+            lenx = [x for x in ir.walk(lp['cond']) if x[0] == 'call' and ir.callee_name(x) == 'len'][0]
+            for n in range(2, 7):
+                got = loops.iterate(lp, {lenx: n})
+                if got != list(range(2, n)):
+                    bad = 'with %d constructor arguments the loop copies arguments %s, the instances are arguments %s' % (n, got, list(range(2, n)))
+                    break
+            if bad is None and not loops.step_on_every_iteration(g, lp):
+                bad = 'an iteration can reach the loop test again without the step'
+        except loops.NoEval as e:
+            bad = 'loop header not evaluable: %s' % e
+    ctx.check(bad is None, rule, 'Type_New', site(fn), 'Type_New copies every instance argument into the type record', [bad] if bad else None)
+    ctx.floor(rule, 1)
+
+
 def check_layout(P, ctx, cache_num):
     rule = 'C08.layout'
     hw = len(P.records['Header']['fields'])
@@ -397,6 +429,7 @@ def run(ctx, load):
     cn = check_cache(P, ctx)
     check_state(P, ctx)
     check_scan(P, ctx)
+    check_type_new_all_instances(P, ctx)
     if cn is not None:
         check_layout(P, ctx, cn)
     before = len(ctx.obs)
